@@ -193,7 +193,7 @@ def gen_program(rng, prof):
                           'defuse': rng.random() < 0.5})
     rng.shuffle(setup)
     return {'engine': 'K', 't0': rng.choice([0, 0, 0, 1, 0.5, 10, -3, -0.25, 2.0 ** 40, 7200.0]), 'shared': shared, 'setup': setup,
-            'drive': [['run']], 'doors': 'cls' if rng.random() < 0.2 else 'env'}
+            'drive': [['run']], 'doors': rng.choice(['cls', 'cls', 'iter']) if rng.random() < 0.3 else 'env'}
 
 
 # --------------------------------------------------------------------------- interpretation
@@ -233,11 +233,15 @@ class World:
         return self.env.process(gen)
 
     def mk_all(self, kids):
+        if self.doors == 'iter':
+            return self.env.all_of(k for k in kids)      # a one-shot iterable instead of a list
         if self.doors == 'cls':
             return _AllOf(self.env, kids) if len(kids) % 2 else _Condition(self.env, _Condition.all_events, kids)
         return self.env.all_of(kids)
 
     def mk_any(self, kids):
+        if self.doors == 'iter':
+            return self.env.any_of(iter(kids))
         if self.doors == 'cls':
             return _AnyOf(self.env, kids) if len(kids) % 2 else _Condition(self.env, _Condition.any_events, kids)
         return self.env.any_of(kids)
